@@ -1,6 +1,7 @@
 """A Partial helper that can be used to add arguments for an arbitrary class or callable."""
 from __future__ import annotations
 
+import copy
 import dataclasses
 import functools
 import inspect
@@ -185,7 +186,13 @@ def config_for(
             fields.insert(0, (name, field_type, field))
             logger.debug(f"Adding required field: {fields[0]}")
         else:
-            field = simple_parsing.field(default=default, help=help_str)
+            if isinstance(default, (list, dict, set)):
+                # Mutable default: dataclasses want a factory.
+                field = simple_parsing.field(
+                    default_factory=functools.partial(copy.deepcopy, default), help=help_str
+                )
+            else:
+                field = simple_parsing.field(default=default, help=help_str)
             fields.append((name, field_type, field))
             logger.debug(f"Adding optional field: {fields[-1]}")
 
